@@ -35,6 +35,9 @@ use std::cell::RefCell;
 /// message of the panic raised when `TraceCfg::fuel` runs out.
 pub const FUEL_PANIC: &str = "verif: emission fuel exhausted";
 
+/// message of the panic raised when `TraceCfg::draw_fuel` runs out.
+pub const DRAW_FUEL_PANIC: &str = "verif: entropy-draw fuel exhausted";
+
 /// generation phase a step belongs to.
 pub const PHASE_BODY: u8 = 1;
 pub const PHASE_TAIL: u8 = 2;
@@ -77,6 +80,9 @@ pub struct TraceCfg {
     pub script: Vec<u8>,
     /// upper bound on emissions; exceeding it panics with `FUEL_PANIC`.
     pub fuel: Option<u64>,
+    /// upper bound on draws from the entropy source; exceeding it panics with
+    /// `DRAW_FUEL_PANIC` (turns a loop that keeps drawing into a visible failure).
+    pub draw_fuel: Option<u64>,
 }
 
 /// state of the simulated machine right after one emission.
@@ -112,6 +118,8 @@ pub struct Trace {
     /// script entries consumed / entries that were not among the candidates.
     pub script_used: usize,
     pub script_misses: usize,
+    /// number of values drawn from the entropy source while the sink was armed.
+    pub draws: u64,
     pub steps: Vec<Step>,
 }
 
@@ -217,6 +225,22 @@ fn step(g: &Generator, with_state: bool, phase: u8, opcode: u8, valid: Vec<u8>) 
         memo_kinds,
         valid,
     }
+}
+
+#[allow(dead_code)]
+pub(crate) fn on_draw() {
+    SINK.with(|s| {
+        let mut s = s.borrow_mut();
+        if s.on {
+            s.trace.draws += 1;
+            if let Some(fuel) = s.cfg.draw_fuel {
+                if s.trace.draws > fuel {
+                    s.on = false;
+                    panic!("{}", DRAW_FUEL_PANIC);
+                }
+            }
+        }
+    });
 }
 
 #[allow(dead_code)]
